@@ -124,6 +124,16 @@ impl Completions {
         if let Err(err) = shared.enter(libc::c_uint::MAX, flags, Some(Duration::from_secs(1))) {
             log::warn!("error flushing submissions: {err}");
         }
+        if shared.kernel_thread {
+            // The kernel thread consumes the submissions asynchronously, the
+            // call above only woke it up. Operations it has not started yet
+            // can't be cancelled below and their completions would arrive
+            // after we're gone. Give it some time.
+            let start = std::time::Instant::now();
+            while shared.unsubmitted_submissions() != 0 && start.elapsed() < Duration::from_secs(1) {
+                std::thread::yield_now();
+            }
+        }
 
         // Hopefully at this point the clean up operations have been completed,
         // but we're not guaranteed that. Cancel any remaining operations, as
